@@ -238,7 +238,9 @@ func (p *Parser) parse(path string, imported bool) (Program, error) {
 		h := sha256.New()
 		h.Write(source)
 
-		p.prefix = fmt.Sprintf("%x", h.Sum(nil))[0:7] // Only use the 7 first characters (inspired by Git).
+		// Only use the 7 first characters (inspired by Git). The leading letter makes sure
+		// that prefixed names are valid identifiers of the target language.
+		p.prefix = fmt.Sprintf("h%x", h.Sum(nil))[0:8]
 	}
 	program, err := p.evaluateProgram()
 
